@@ -4,7 +4,7 @@ import ast
 from sa import effects
 from sa.variance import path_literals
 from .common import (Ctx, call_name, calls_in, dotted, eval_bool, is_name, kw, node_calls,
-                     nodes_calling, norm, own_calls, params)
+                     node_of, nodes_calling, norm, own_calls, params)
 
 P = 'C14'
 
@@ -290,7 +290,9 @@ def r3_filter_before_import(ctx, rep, R='C14.R3'):
 def r4_pruning(ctx, rep, R='C14.R4'):
     rep.rule(R, 'pruning: find_test_files_ keeps, in place and before the walk resumes, only '
              'directories whose name is an identifier and not in IGNORE_FOLDERS; walk_with_symlinks '
-             'removes options.ignore_dir in place before it yields')
+             'removes options.ignore_dir in place before it yields; options.ignore_dir contains the '
+             'built-in names (.git .svn CVS {arch} .arch-ids _darcs) whether or not --ignore_dir is '
+             'given (abstract evaluation of the argparse declaration and of get_options)')
     m = ctx.model
     ff = walker_fn(ctx)
     g = ctx.cfg(ff)
@@ -355,6 +357,140 @@ def r4_pruning(ctx, rep, R='C14.R4'):
     rep.check(okw, R, 'walk_with_symlinks: dirs[:] = [d for d in dirs if d not in options.ignore_dir] '
               'before the yield', 'ignored directories are not pruned before the walk step is yielded',
               key='prune:walk', func=fw.qualname, where=ctx.where(fw, fw.node))
+    default_ignores_kept(ctx, rep, R)
+
+
+# the names the runner has always ignored (option --ignore_dir; its help text: "Specifies the name
+# of a directory to ignore when looking for tests"): version-control bookkeeping directories.  An
+# explicit --ignore_dir adds to them (argparse 'append' on a list default).
+DEFAULT_IGNORED = ('.git', '.svn', 'CVS', '{arch}', '.arch-ids', '_darcs')
+
+
+class _Undecided(Exception):
+    pass
+
+
+def default_ignores_kept(ctx, rep, R):
+    """the set stored in options.ignore_dir contains the built-in names in every option vector:
+    abstract evaluation (tokens D = the built-in names, U = names given by the user, NONE) of the
+    argparse declaration of --ignore_dir and of every assignment to options.ignore_dir in
+    get_options, once for "no --ignore_dir given" and once for "some given" """
+    m = ctx.model
+    mod = m.modules['options']
+    consts = mod.constants
+
+    def lit(x, depth=0):
+        """token set of a literal collection / module constant, or None"""
+        if isinstance(x, ast.Name) and x.id in consts and depth < 4:
+            return lit(consts[x.id], depth + 1)
+        if isinstance(x, (ast.List, ast.Tuple, ast.Set)):
+            vals = [e.value for e in x.elts if isinstance(e, ast.Constant)]
+            if len(vals) != len(x.elts):
+                return None
+            return frozenset(['D']) if set(DEFAULT_IGNORED) <= set(vals) else \
+                (frozenset(['d']) if vals else frozenset())
+        if isinstance(x, ast.Call) and isinstance(x.func, ast.Name) and len(x.args) == 1 and \
+                not x.keywords and x.func.id in ('list', 'tuple', 'set', 'frozenset', 'sorted'):
+            return lit(x.args[0], depth + 1)
+        if isinstance(x, ast.Constant) and x.value is None:
+            return 'NONE'
+        return None
+
+    decl = [n for n in ast.walk(mod.tree) if isinstance(n, ast.Call) and
+            isinstance(n.func, ast.Attribute) and n.func.attr == 'add_argument' and
+            (kw(n, 'dest') is not None and getattr(kw(n, 'dest'), 'value', None) == 'ignore_dir' or
+             any(isinstance(a, ast.Constant) and str(a.value).lstrip('-').replace('-', '_') == 'ignore_dir'
+                 for a in n.args))]
+    fo = m.func('options.get_options')
+    if len(decl) != 1:
+        rep.check(False, R, 'one declaration of --ignore_dir', 'found %d declarations of the option'
+                  % len(decl), key='ignore:decl', func=fo.qualname, where=ctx.where(fo, fo.node))
+        return
+    d = decl[0]
+    action = getattr(kw(d, 'action'), 'value', 'store')
+    dflt = kw(d, 'default')
+    dv = 'NONE' if dflt is None else lit(dflt)
+    problems = []
+    verdicts = {}
+    for scen in ('none given', 'some given'):
+        try:
+            if dv is None:
+                raise _Undecided('default=%s' % norm(dflt))
+            if scen == 'none given':
+                cur = dv
+            elif action == 'append':
+                cur = (frozenset() if dv == 'NONE' else dv) | {'U'}
+            elif action in ('store', None):
+                cur = frozenset(['U'])
+            else:
+                raise _Undecided('action=%r' % action)
+
+            def ev(x, cur):
+                if dotted(x) == 'options.ignore_dir':
+                    return cur
+                v = lit(x)
+                if v is not None and not (isinstance(x, ast.Call)):
+                    return v
+                if isinstance(x, ast.Call) and isinstance(x.func, ast.Name) and len(x.args) == 1 and \
+                        not x.keywords and x.func.id in ('list', 'tuple', 'set', 'frozenset', 'sorted'):
+                    r = ev(x.args[0], cur)
+                    if r == 'NONE':
+                        raise _Undecided('%s of None' % x.func.id)
+                    return r
+                if isinstance(x, ast.BoolOp) and isinstance(x.op, ast.Or):
+                    for i, a in enumerate(x.values):
+                        r = ev(a, cur)
+                        if i == len(x.values) - 1 or (r != 'NONE' and r):
+                            return r
+                if isinstance(x, ast.BinOp) and isinstance(x.op, (ast.Add, ast.BitOr)):
+                    l, r = ev(x.left, cur), ev(x.right, cur)
+                    if 'NONE' in (l, r):
+                        raise _Undecided('None in %s' % norm(x))
+                    return l | r
+                if isinstance(x, ast.Call) and isinstance(x.func, ast.Attribute) and \
+                        x.func.attr == 'union' and not x.keywords:
+                    r = ev(x.func.value, cur)
+                    for a in x.args:
+                        r = r | ev(a, cur)
+                    return r
+                if isinstance(x, ast.IfExp):
+                    raise _Undecided(norm(x))
+                raise _Undecided(norm(x))
+            g = ctx.cfg(fo)
+            possible = [cur]
+            for n in ast.walk(fo.node):
+                if isinstance(n, ast.Assign) and any(dotted(t) == 'options.ignore_dir' for t in n.targets):
+                    nid = node_of(g, n)
+                    new = [ev(n.value, c) for c in possible]
+                    # unconditional = on every normal path to a ``return <value>`` of get_options
+                    rets = [x.id for x in g.nodes if isinstance(x.stmt, ast.Return) and
+                            x.stmt.value is not None]
+                    # (paths that give up with options.fail = True never reach discovery)
+                    fails = {x.id for x in g.nodes if isinstance(x.stmt, ast.Assign) and x.kind == 'stmt'
+                             and any(dotted(t) == 'options.fail' for t in x.stmt.targets)}
+                    uncond = nid is not None and bool(rets) and g.every_path_passes(
+                        [g.entry], rets, {nid} | fails, edge_ok=lambda s_, d_, k_: k_ != 'exc')[0]
+                    possible = new if uncond else possible + new
+                elif isinstance(n, ast.AugAssign) and dotted(n.target) == 'options.ignore_dir':
+                    raise _Undecided(norm(n))
+                elif isinstance(n, ast.Call) and isinstance(n.func, ast.Attribute) and \
+                        dotted(n.func.value) == 'options.ignore_dir' and \
+                        n.func.attr in ('clear', 'remove', 'discard', 'pop', 'difference_update',
+                                        'intersection_update'):
+                    problems.append('%s: %s removes names' % (scen, norm(n)))
+            bad = [c for c in possible if c == 'NONE' or 'D' not in c]
+            verdicts[scen] = not bad
+            if bad:
+                problems.append('%s: options.ignore_dir = %s' % (
+                    scen, sorted(bad[0]) if bad[0] != 'NONE' else 'None'))
+        except _Undecided as e:
+            rep.undecide(R, 'options.ignore_dir contains the built-in ignored names', str(e))
+            return
+    rep.check(not problems, R, 'options.ignore_dir contains the built-in ignored names %s whether or not '
+              '--ignore_dir is given' % (DEFAULT_IGNORED,),
+              'the built-in ignored directory names are lost (%s): version-control directories are then '
+              'searched for tests and for stale bytecode' % '; '.join(problems), key='ignore:defaults',
+              func=fo.qualname, where=ctx.where(fo, d))
 
 
 def r5_package_restricts(ctx, rep, R='C14.R5'):
